@@ -251,6 +251,26 @@ def corpus():
     one(["DCompound", [["DEnum", [["PInt", 1], S("a")]], ["DStr"]]], *arr)
     one(["DTuple", [["DEnum", [["PInt", 1], S("a")]], ["DInt"]]], ["PTuple", [arr[0], ["PInt", 1]]], ["PTuple", [["PInt", 1], ["PInt", 1]]])
     one(["DUnion", [["DEnum", [["PInt", 1], S("a")]], ["DInt"]]], *arr, how="Ctor")
+    # Union: "the first trait in the list that can validate": the stored value must not depend on which alternative
+    # accepted the PREVIOUS value (on this or any other instance of the class): a value only a LATER alternative accepts,
+    # then values that an earlier alternative accepts and a later one would convert differently
+    yn = ["DPrefixList", [pv.W("yes"), pv.W("no")]]
+    for d, later, both in [
+            (["DUnion", [["DInt"], ["DFloat"]]], ["PFloat", F(0.5)], [["PInt", 2], ["PBool", True], ["PInt", 0]]),
+            (["DUnion", [["DBool"], ["DInt"]]], ["PInt", 3], [["PBool", True], ["PBool", False]]),
+            (["DUnion", [yn, ["DStr"]]], S("zzz"), [S("y"), S("no"), S("n")]),
+            (["DUnion", [["DInt"], ["DCast", "CTFloat"], ["DStr"]]], S("a"), [["PInt", 2], ["PFloat", F(0.5)], ["PInt", 3]]),
+            (["DUnion", [["DRangeI", 0, 5, 0], ["DFloat"], ["DCast", "CTStr"]]], ["PNone"], [["PInt", 2], ["PInt", 7], ["PInt", 1]]),
+            (["DUnion", [["DStr"], ["DCast", "CTBytes"]]], ["PBytes", [97]], [S("a")]),
+            (["DUnion", [["DTuple", [["DInt"], ["DInt"]]], ["DTuple", [["DFloat"], ["DFloat"]]]]],
+             ["PTuple", [["PFloat", F(0.5)], ["PInt", 1]]], [["PTuple", [["PInt", 1], ["PInt", 2]]]]),
+            (["DUnion", [["DComplex"], ["DFloat"], ["DInt"]]], ["PNone"], [["PFloat", F(0.5)], ["PInt", 2]])]:
+        for how in ("Attr", "TraitSet", "TraitSetQ", "Ctor"):
+            cs.append(dict(traits=[[0, d], [1, ["DInt"]]],
+                           ops=[[how, [[0, later]]]] + [[how, [[0, v]]] for v in both] + [[how, [[0, later]]], ["Attr", [[0, both[0]]]]]))
+        cs.append(dict(traits=[[0, d], [1, ["DInt"]], [2, d]],       # the other attribute / another instance
+                       ops=[["Attr", [[2, later]]], ["Attr", [[0, both[0]]]], ["Ctor", [[2, later]]], ["Ctor", [[0, both[-1]]]],
+                            ["TraitSet", [[2, later], [0, both[0]]]]]))
     # READ FIRST, then assign the very object the read returned: the default a read stores is not validated, so what is
     # stored is no evidence that assigning it is allowed (default None of allow_none=False traits, '' of String(minlen=2),
     # None of Either(..)); also a valid value, then the default again
